@@ -78,6 +78,81 @@ theorem C05_sound (v : Verifier) (g : Option Sig) (gd : Digest) (env : Option En
           obtain ⟨f', hinv'⟩ := envPhase_inv v g gd e v.principals (fun _ h => h) _ st f pg hinv hst
           exact hfin st f' pg hinv' h
 
+/-- The same bookkeeping holds when the threshold is NOT met: the principals reported with
+`ErrVerifierConditionsUnmet` are distinct principals of the rule, injectively credited through valid
+signatures (they are what the caller merges code-review approvers into). -/
+theorem C05_unmet_credited (v : Verifier) (g : Option Sig) (gd : Digest) (env : Option Envelope)
+    (S : List PId) (h : v.verify g gd env = .error (.unmet S)) :
+    CreditedInjectively v g gd env S := by
+  unfold Verifier.verify at h
+  split at h
+  · cases h
+  · have hst0 : ∀ env', ∃ f pg, EnvInv v g gd env'
+        (match gitPhase v.principals g gd with
+          | some (p, k) => ([p], [k])
+          | none => ([], [])) f pg := by
+      intro env'
+      cases hg : gitPhase v.principals g gd with
+      | none =>
+        exact ⟨fun _ => 0, none, ⟨List.nodup_nil, by simp, by simp, by simp⟩⟩
+      | some pk =>
+        obtain ⟨p, k⟩ := pk
+        obtain ⟨P, hP, hid, hk, hval⟩ := gitPhase_some _ _ _ _ _ hg
+        refine ⟨fun _ => k, some p, ⟨by simp, ?_, by simp, ?_⟩⟩
+        · intro q hq
+          simp only [List.mem_singleton] at hq
+          subst hq
+          exact ⟨P, hP, hid, hk, Or.inl ⟨rfl, hval⟩⟩
+        · intro a ha b hb _
+          simp only [List.mem_singleton] at ha hb
+          rw [ha, hb]
+    have hfin : ∀ (st : VState) f pg, EnvInv v g gd env st f pg → v.finish st = .error (.unmet S) →
+        CreditedInjectively v g gd env S := by
+      intro st f pg hinv hf
+      unfold Verifier.finish at hf
+      split at hf
+      · cases hf
+      · cases hf
+        exact ⟨hinv.nodup, f, pg, hinv.cred, hinv.inj⟩
+    simp only at h
+    split at h
+    · cases h
+    · split at h
+      · obtain ⟨f, pg, hinv⟩ := hst0 none
+        exact hfin _ f pg hinv h
+      · rename_i e
+        split at h
+        · rename_i x hx
+          -- an error of the envelope phase is never `unmet`
+          exfalso
+          have : ∀ (ps : List Principal) (st : VState) x, envPhase e ps st = .error x → x = .noSignature := by
+            intro ps
+            induction ps with
+            | nil => intro st x hx; simp [envPhase] at hx
+            | cons P ps ih =>
+              intro st x hx
+              unfold envPhase at hx
+              split at hx
+              · rename_i y hy
+                cases hx
+                unfold envStep at hy
+                split at hy
+                · cases hy
+                · simp only at hy
+                  split at hy
+                  · cases hy
+                  · split at hy
+                    · cases hy; rfl
+                    · split at hy <;> cases hy
+              · exact ih _ _ hx
+          have hx' := this _ _ _ hx
+          subst hx'
+          cases h
+        · rename_i st hst
+          obtain ⟨f, pg, hinv⟩ := hst0 (some e)
+          obtain ⟨f', hinv'⟩ := envPhase_inv v g gd e v.principals (fun _ h => h) _ st f pg hinv hst
+          exact hfin st f' pg hinv' h
+
 /-- A rule with a threshold below one or with no principals is never satisfied. -/
 theorem C05_invalid (v : Verifier) (g : Option Sig) (gd : Digest) (env : Option Envelope)
     (h : v.threshold < 1 ∨ v.principals = []) :
